@@ -29,13 +29,15 @@ Ops == {"valid",            \* the base text itself
         "delete",           \* one byte removed at every position
         "dup",              \* every structural token duplicated
         "swap",             \* adjacent structural tokens swapped
+        "subst2",           \* two bytes replaced at once (seed-sampled position pairs)
+        "splice",           \* a window of the text overwritten by a window taken from elsewhere in it
         "tail",             \* arbitrary bytes of the class appended after the text
         "junk"}             \* class-specific junk documents (deep nesting, huge numbers, too many members, ...)
 
 ByteClasses == {"lbrace", "rbrace", "lbracket", "rbracket", "quote", "backslash", "colon", "comma",
                 "digit", "letter", "hexupper", "space", "nul", "ctrl", "del", "x80", "xBF", "xC0", "xE0", "xF0", "xFF", "hash", "u"}
 
-JunkKinds == {"nest_arrays", "nest_objects", "digits_20", "digits_10000", "many_tag_members", "many_tags",
+JunkKinds == {"nest_arrays", "nest_objects", "nest_deep", "digits_20", "digits_10000", "many_tag_members", "many_tags",
               "unterminated_string", "unterminated_escape", "unterminated_uescape", "lone_continuation",
               "truncated_multibyte", "empty", "only_space", "big_string"}
 
@@ -50,9 +52,9 @@ Case(e, o, k, b) == [entry |-> e, op |-> o, cls |-> k, buf |-> b]
 
 Cases ==
     UNION {
-             {Case(e, o, k, b) : o \in {"subst", "insert", "tail"}, k \in ByteClasses,
+             {Case(e, o, k, b) : o \in {"subst", "subst2", "insert", "tail"}, k \in ByteClasses,
                                  b \in IF HasOutBuf(e) THEN {"needed", "large", "needed_minus"} ELSE {"large"}}
-        \cup {Case(e, o, "none", b) : o \in {"valid", "prefix", "delete", "dup", "swap"},
+        \cup {Case(e, o, "none", b) : o \in {"valid", "prefix", "delete", "dup", "swap", "splice"},
                                  b \in IF HasOutBuf(e) THEN BufClasses ELSE {"large"}}
         \cup {Case(e, "junk", j, b) : j \in JunkKinds,
                                  b \in IF HasOutBuf(e) THEN {"zero", "tiny", "needed", "large"} ELSE {"large"}}
